@@ -122,6 +122,9 @@ class H11Protocol:
             self.closed = True
             if self.stream is not None:
                 await self._close_stream()
+            # Nothing will be recycled now, release a reader that is
+            # waiting to handle a pipelined request.
+            await self.can_read.set()
 
     async def stream_send(self, event: StreamEvent) -> None:
         if isinstance(event, Response):
@@ -190,7 +193,7 @@ class H11Protocol:
                         break  # Closing, there is no response to wait for
                     await self.can_read.clear()
                     await self.can_read.wait()
-                    if self.connection.our_state is not h11.IDLE:
+                    if self.closed or self.connection.our_state is not h11.IDLE:
                         # Not recycled i.e. the connection is closing, the
                         # pipelined data will never be read.
                         break
